@@ -352,3 +352,7 @@ def main(argv):
     except InfraError as e:
         print('INFRASTRUCTURE-ERROR %s: %s' % (a.pid, e))
         return 2
+    except Exception:   # a bug in the machinery itself is never reported as a violation
+        print('INFRASTRUCTURE-ERROR %s: unexpected exception in the check machinery' % a.pid)
+        traceback.print_exc()
+        return 2
